@@ -17,6 +17,53 @@ where
     v
 }
 
+/// The getrandom shim (LD_PRELOAD, see /verif/shim): `arm(base)` makes the hash keys of the
+/// calling thread a function of `base`.
+#[derive(Clone, Copy)]
+pub struct Shim {
+    pub arm: extern "C" fn(u64),
+    pub calls: extern "C" fn() -> u64,
+}
+
+extern "C" {
+    fn dlsym(handle: *mut std::ffi::c_void, symbol: *const std::os::raw::c_char) -> *mut std::ffi::c_void;
+}
+
+pub fn shim() -> Option<Shim> {
+    unsafe {
+        let a = dlsym(std::ptr::null_mut(), b"verif_shim_arm\0".as_ptr() as *const _);
+        let c = dlsym(std::ptr::null_mut(), b"verif_shim_calls\0".as_ptr() as *const _);
+        if a.is_null() || c.is_null() {
+            return None;
+        }
+        Some(Shim {
+            arm: std::mem::transmute::<*mut std::ffi::c_void, extern "C" fn(u64)>(a),
+            calls: std::mem::transmute::<*mut std::ffi::c_void, extern "C" fn() -> u64>(c),
+        })
+    }
+}
+
+/// Run `f` on a fresh thread whose hash keys derive from `base` (armed before the thread creates
+/// its first RandomState): every hash-iteration order inside `f` is then a function of `base`
+/// and of what `f` does, so a verdict can be replayed. Without the shim `f` still runs on a fresh
+/// thread, with std's own keys. A fresh thread also means fresh thread-local state of the library
+/// for every case (state that outlives a case is the business of the interference stage).
+pub fn seeded<T: Send>(base: u64, f: impl FnOnce() -> T + Send) -> T {
+    std::thread::scope(|s| {
+        std::thread::Builder::new()
+            .stack_size(16 << 20)
+            .spawn_scoped(s, move || {
+                if let Some(sh) = shim() {
+                    (sh.arm)(base);
+                }
+                f()
+            })
+            .expect("spawn")
+            .join()
+            .unwrap_or_else(|e| std::panic::resume_unwind(e))
+    })
+}
+
 /// Call `f`, turning a panic into Err(text).
 pub fn guarded<T>(f: impl FnOnce() -> T) -> Result<T, String> {
     match catch_unwind(AssertUnwindSafe(f)) {
